@@ -798,6 +798,29 @@ def dot(x, y, out=None, out_like=None, sizing='optimal', method='raw', **kwargs)
 
     return _function_over_two_vars(repr_func=np.dot, raw_func=_dot_raw, x=x, y=y, out=out, out_like=out_like, sizing=sizing, method=method, optimal_size=optimal_size, **kwargs)
 
+@implements(np.matmul)
+def matmul(x, y, out=None, out_like=None, sizing='optimal', method='raw', **kwargs):
+    """
+    Matrix product of two arrays, calculated with the integer codes and sized like `dot`.
+    """
+    def _matmul_raw(x, y, n_frac, **kwargs):
+        precision_cast = (lambda m: np.array(m, dtype=object)) if n_frac >= _n_word_max else (lambda m: m)
+        return np.matmul(x.val, y.val, **kwargs) * precision_cast(2**(n_frac - x.n_frac - y.n_frac))
+
+    if not isinstance(x, Fxp):
+        x = Fxp(x)
+    if not isinstance(y, Fxp):
+        y = Fxp(y)
+
+    num_of_additions = x.shape[-1] if x.ndim > 0 else 1
+    signed = x.signed or y.signed
+    n_frac = x.n_frac + y.n_frac
+    n_word = int(np.ceil(np.log2(num_of_additions))) + x.n_word + y.n_word
+    n_int = n_word - int(signed) - n_frac
+    optimal_size = (signed, n_word, n_int, n_frac)
+
+    return _function_over_two_vars(repr_func=np.matmul, raw_func=_matmul_raw, x=x, y=y, out=out, out_like=out_like, sizing=sizing, method=method, optimal_size=optimal_size, **kwargs)
+
 @implements(np.nonzero)
 def nonzero(x):
     """
